@@ -19,13 +19,14 @@ func init() {
 		Bounds:  func(tier string) map[string]any { return map[string]any{"k": 3, "seq_len": c02SeqLen(tier)} },
 		NewCase: func() any { return &SCase{} },
 		Gen:     c02Gen,
+		Setup:   cliSetup,
 		Run: func(env *core.Env, ci any) core.Outcome {
 			c := ci.(*SCase)
 			var o core.Outcome
 			if len(c.Changes) == 1 {
-				o = judgeModel(&MCase{Change: c.Changes[0], File: c.File, Tag: c.Tag}, canon.Options{}).Out
+				o = judgeModelBoth(env, &MCase{Change: c.Changes[0], File: c.File, Tag: c.Tag}, canon.Options{}, 1).Out
 			} else {
-				o = judgeSeq(c, canon.Options{})
+				o = judgeSeqBoth(env, c, canon.Options{})
 			}
 			if o.Violation != "" {
 				o.FindingKey = "C02:" + o.FindingKey + "/" + strings.SplitN(c.Tag, "/", 2)[0]
